@@ -34,7 +34,7 @@ def gen_history(rng, L0, N0, level_max):
             if mode < 0.35 or r < 0.3:
                 v = c                                     # nothing to add
             elif r < 0.8:
-                v = c + rng.choice([1, 2, 3, 5, 10, c, 2 * c + 1])
+                v = c + rng.choice([1, 1, 2, 3, 5, 10, c, 2 * c + 1])
             else:
                 v = max(0, c - rng.randint(1, 3))         # optimal size below what was done
             ns.append(v)
@@ -192,7 +192,7 @@ def run(ctx):
     for _ in range(ctx.n(120, 3000)):
         level_max = rng.randint(1, 8)
         L0 = rng.randint(0, min(4, level_max))
-        N0 = rng.choice([1, 2, 3, 5, 10, 20, 40])
+        N0 = rng.choice([1, 2, 3, 5, 10, 20, 40, 100, 230])
         one_history(ctx, L0, N0, level_max, gen_history(rng, L0, N0, level_max), "random")
     # directed: a level added at iteration t whose first pass has dN in {0,1,2}
     for L0 in (0, 1, 2):
@@ -205,6 +205,16 @@ def run(ctx):
                     hist += [([top] * n, False, [top] * n + [dn]), ([top] * n + [dn], True, [])]
                     hist.append(([0] * 12, True, [0] * 12))
                     one_history(ctx, L0, N0, L0 + 3, hist, "late_level")
+    # directed: the run returns while some level still has a non-zero top-up within the 1 % rule (needs N_l >= 100): the
+    # arrays must not have been padded for samples that are never simulated
+    for L0 in (0, 1, 2):
+        for N0 in (100, 200, 350):
+            n = L0 + 1
+            for delta in (1, 2, N0 // 100):
+                one_history(ctx, L0, N0, L0 + 2, [([N0 + delta] * n, True, [])], "small_topup")
+                one_history(ctx, L0, N0, L0, [([N0 + delta] + [N0] * (n - 1), False, [])], "small_topup_maxlevel")
+            hist = [([N0] * n, False, [N0] * n + [150]), ([N0 + 1] * n + [151], True, [])]
+            one_history(ctx, L0, N0, L0 + 2, hist, "small_topup_after_level")
     # fixed-level variant
     for max_level in range(0, ctx.n(4, 6)):
         for mc in (1, 2, 7):
